@@ -6,7 +6,7 @@ Import ListNotations.
 Local Open Scope N_scope.
 
 (* For ALL initial file systems, ALL object lists (any number of members, any chunking of each member, a failing
-   member — optional or not — at ANY position, any failing system call), ALL sets of observers (pollers that open and
+   member — absent or unreadable, optional or not — at ANY position, any failing system call), ALL sets of observers (pollers that open and
    read output paths whenever they like, holders of descriptors opened before the request) and ALL schedules:
    whatever an observer reads at an output path is the complete previous content of that path or the complete content
    of a member restored to it — never a prefix, never a mixture. *)
@@ -129,7 +129,7 @@ Definition ex_b : path := ([100], [98]).          (* d/b *)
 Definition ex_f0 : fs := mk_fs_from [(ex_a, ([1; 2; 3], 420)); (ex_b, ([9], 420))] 0.
 Definition ex_objs : list obj :=
   [ mkObj ex_a [120] [[7]; [8; 9]; [10]] (DecOk (Some 493)) false FNone;      (* restored in three writes *)
-    mkObj ex_b [121] [[5]; [6]] DecErr false FNone ].                          (* fails after two writes *)
+    mkObj ex_b [121] [[5]; [6]] DecCorrupt false FNone ].                      (* fails after two writes *)
 Definition ex_readers : list (@thread local action) :=
   [ (init_local, [AOpen ex_a; ARead; AOpen ex_a; ARead; ARead]);
     (mkLocal (lookup ex_a ex_f0) ex_a [] false, [ARead; ARead]) ].
@@ -154,6 +154,6 @@ Proof. vm_compute. repeat split; reflexivity. Qed.
 
 (* the mode window on this example: after create + 3 writes + rename the new bytes carry mode 0600 *)
 Example ex_mode_window :
-  let f := fst (run (repeat 0%nat 5) ex_f0 [hd (mkObj ex_a [] [] DecErr false FNone) ex_objs] []) in
+  let f := fst (run (repeat 0%nat 5) ex_f0 [hd (mkObj ex_a [] [] DecAbsent false FNone) ex_objs] []) in
   content f ex_a = Some [7; 8; 9; 10] /\ mode_at f ex_a = Some 384.
 Proof. vm_compute. auto. Qed.
